@@ -66,8 +66,12 @@ def run(ctx, replay=None):
                 for k, g in enumerate(groups)]
         if model_only is not None or not replay:
             f_model = ex.submit(c02_model.run, ctx, 48 if ctx.quick else 240, 24 if ctx.quick else 120, model_only)
-            f_model.result()
+            _, deferred = f_model.result()
+        else:
+            deferred = None
         results = [f.result() for f in futs]
+    if deferred:
+        deferred.emit(ctx, "oracle")       # property-level failures of the model cases first
     ctx.coverage["rule"] = ("zoo case = (estimator, seed) -> parameters (discrete ones enumerated on consecutive seeds) and small "
                             "valid training data; model case = seeded parameters + integer-token corpora evaluated in Coq and on "
                             "the implementation; non-trivial = the paths returned an output with at least one non-zero entry / item")
@@ -112,6 +116,8 @@ def run(ctx, replay=None):
             else:
                 what = "%s(seed %d, %s): fit_transform(X) != fit(X).transform(X): %s" % (name, seed, r.get("params"), r["diff"])
             ctx.report(what, {"stage": "oracle", "case": [name, seed], "result": r})
+    if deferred:
+        deferred.emit(ctx, "corr")         # model/implementation differences last (no failing input of the property)
     ctx.coverage["oracle"].update({"estimators": len(ESTIMATORS),
                                    "cases_per_estimator": {n: n_cases(n, ctx.quick) for n in ESTIMATORS},
                                    "interpreted_cases_per_cooccurrence_driver": n_interpreted(ctx.quick),
